@@ -5,7 +5,7 @@ import itertools
 import z3
 
 from vf.symx import Driver, SymCoef
-from vf.common import Check
+from vf.common import Check, stable_hash
 from vf.eqsmt import to_z3, Untranslatable, Decider, val_fraction
 from vf.par import pmap
 from vf.emit import emit
@@ -226,7 +226,7 @@ def histories(tier):
     L = 3
     for n in range(1, L + 1):
         for seq in itertools.product(HIST_TERMS, repeat=n):
-            if tier == 'quick' and n == 3 and (hash(seq) % 4):
+            if tier == 'quick' and n == 3 and (stable_hash(seq) % 4):
                 continue
             for flags in itertools.product((True, False), repeat=n):
                 if n == 3 and flags not in ((True, True, True), (True, False, True), (False, True, False)):
@@ -250,9 +250,9 @@ def reg_cases(tier):
     L = 2 if tier == 'quick' else 3
     for n in range(1, L + 1):
         for seq in itertools.product(flows, repeat=n):
-            if n >= 2 and tier == 'quick' and (hash(seq) % 3):
+            if n >= 2 and tier == 'quick' and (stable_hash(seq) % 3):
                 continue
-            if n == 3 and (hash(seq) % 9):
+            if n == 3 and (stable_hash(seq) % 9):
                 continue
             for fl in ((True, True), (False, True), (True, False)):
                 out.append((seq, fl))
@@ -354,6 +354,50 @@ if fv != 'n/a':
 sys.exit(1 if bad else 0)
 '''
 
+# ---- flows registered after the model's alias pass (the step-wise runner resolves aliases BEFORE the sectors generate their equations) ------------
+
+def alias_pass_cases(tier):
+    out = []
+    for prior in ('', '0.0', 'z*2', 'absent'):
+        for term in ('X', '-X', '+X'):
+            for with_alias in (True, False):
+                out.append((prior, term, with_alias))
+    return out
+
+
+def alias_pass_chunk(cases):
+    bad = []
+    n = 0
+    env = lambda nme: z3.Real('X_' + nme)
+    for prior, term, with_alias in cases:
+        m, s, o = make_sector()
+        o.AddVariable('W', 'w', '1.0')
+        if with_alias:
+            o.GetVariableName('W')              # one placeholder handed out: the alias pass has something to do
+        if prior != 'absent':
+            s.AddVariable('X', 'flow variable', prior)
+        m._GenerateFullSectorCodes()
+        m._FixAliases()
+        try:
+            s.AddCashFlow(term, 'q*3 + 1', 'a flow')
+        except Exception as e:
+            bad.append((prior, term, with_alias, 'raises %r' % (e,)))
+            continue
+        n += 1
+        got = s.EquationBlock['X'].RHS()
+        want = 'z*2' if prior == 'z*2' else 'q*3 + 1'
+        if not _same(got, want, env):
+            bad.append((prior, term, with_alias, 'flow variable X is %r, expected %r (prior definition %r)' % (got, want, prior)))
+    return {'n': n, 'bad': bad}
+
+
+REPLAY_ALIAS = '''
+import sys
+from vf.props import c06
+r = c06.alias_pass_chunk([%(case)r])
+print(r['bad']); sys.exit(1 if r['bad'] else 0)
+'''
+
 REPLAY_HIST = '''
 import sys
 from vf.props import c06
@@ -410,7 +454,9 @@ def run(tier, seed):
             elif len(chk.samples) < 8 and o['accepted'] > 10:
                 chk.sample({'harness': 'E2 Sector.AddCashFlow', 'ledger with symbolic coefficients': o['cfg'][0], 'terms': o['cfg'][1], 'flow': o['cfg'][2],
                             'is_income': o['cfg'][3], 'exclusions': o['cfg'][4], 'flow variable': o['cfg'][5], 'paths': o['paths'], 'verdict': 'post holds on every path'})
-    for fn, cases, tmpl, tag in ((hist_chunk, hs, REPLAY_HIST, 'history'), (reg_chunk, rc, REPLAY_REG, 'register')):
+    apc = alias_pass_cases(tier)
+    chk.bounds['flows registered after the alias pass'] = '%d cases: prior definition absent / empty / 0.0 / genuine x term spelling x placeholder handed out or not; Model._GenerateFullSectorCodes + _FixAliases (the first two steps of the step-wise runner) run before AddCashFlow(term, eqn)' % len(apc)
+    for fn, cases, tmpl, tag in ((hist_chunk, hs, REPLAY_HIST, 'history'), (reg_chunk, rc, REPLAY_REG, 'register'), (alias_pass_chunk, apc, REPLAY_ALIAS, 'after-alias-pass')):
         for st, r in pmap(fn, [cases[i::32] for i in range(32)]):
             if st != 'ok':
                 chk.harness_errors.append(r[:800])
